@@ -36,9 +36,9 @@ Proof. exact o_block_go_stops. Qed.
 Print Assumptions C02_return_stops_block.
 
 (* ... and no further loop pass runs *)
-Theorem C02_return_stops_while : forall ev body c j st s1 v s2,
-  ev st c = Ok (VBool true) s1 -> body s1 = OR (OReturn v) s2 ->
-  o_while ev body c (S j) st = OR (OReturn v) s2.
+Theorem C02_return_stops_while : forall ev body c l j st s1 v s2,
+  ev (set_line st l) c = Ok (VBool true) s1 -> body s1 = OR (OReturn v) s2 ->
+  o_while ev body c l (S j) st = OR (OReturn v) s2.
 Proof. exact o_while_return. Qed.
 Print Assumptions C02_return_stops_while.
 
@@ -49,8 +49,8 @@ Proof. exact o_iter_return. Qed.
 Print Assumptions C02_return_stops_iterate.
 
 (* 结束循环 / 继续循环 act on the innermost enclosing loop only: a loop never ends with one of them *)
-Theorem C02_break_continue_innermost : forall ev body c j st s,
-  o_while ev body c j st <> OR OBreak s /\ o_while ev body c j st <> OR OContinue s.
+Theorem C02_break_continue_innermost : forall ev body c l j st s,
+  o_while ev body c l j st <> OR OBreak s /\ o_while ev body c l j st <> OR OContinue s.
 Proof. exact o_while_consumes_signals. Qed.
 Print Assumptions C02_break_continue_innermost.
 
@@ -71,14 +71,14 @@ Theorem C02_signals_never_leave_a_body : forall n k st fd args,
 Proof. exact body_balanced. Qed.
 Print Assumptions C02_signals_never_leave_a_body.
 
-(* 每当 re-tests its condition before every pass *)
-Theorem C02_while_retests : forall ev body c j st,
-  o_while ev body c (S j) st =
-  ebind (ev st c) (fun cv s1 =>
+(* 每当 re-tests its condition before every pass, at the line of the 每当 statement *)
+Theorem C02_while_retests : forall ev body c l j st,
+  o_while ev body c l (S j) st =
+  ebind (ev (set_line st l) c) (fun cv s1 =>
     match cv with
     | VBool true =>
       match body s1 with
-      | OR (ONormal _) s2 | OR OContinue s2 => o_while ev body c j s2
+      | OR (ONormal _) s2 | OR OContinue s2 => o_while ev body c l j s2
       | OR OBreak s2 => OR (ONormal VNull) s2
       | o => o
       end
